@@ -60,6 +60,42 @@ int main(int argc, char **argv)
       total.seen("nontrivial", fnv(det));
       delete px;
     }
+  // ---- pair lists: between two rebuilds the value must be the same function of the coordinates as on a rebuild step.
+  // A system translated rigidly from step to step has a constant coordination number (every variant, every step).
+  {
+    struct PL { const char *name; std::string opts; };
+    std::vector<PL> pls = {
+        {"coordNum/pairlist", " cutoff 3.5\n tolerance 0.001\n pairListFrequency 3\n"},
+        {"coordNum/anisotropic+pairlist", " cutoff3 (3.0, 5.0, 7.0)\n tolerance 0.001\n pairListFrequency 3\n"},
+        {"coordNum/anisotropic+pairlist+group2CenterOnly", " cutoff3 (3.0, 5.0, 7.0)\n tolerance 0.001\n pairListFrequency 4\n group2CenterOnly on\n"},
+        {"coordNum/expNumer4-expDenom8+pairlist", " cutoff 3.5\n expNumer 4\n expDenom 8\n tolerance 0.002\n pairListFrequency 2\n"},
+    };
+    std::vector<R> base = {R(0.3, -1.2, 0.8), R(1.9, 0.4, -0.6), R(-1.1, 1.5, 0.2), R(-0.7, -0.9, -1.4), R(0.9, 0.6, 1.7), R(2.4, -1.8, 0.3), R(-2.0, 0.1, 1.1)};
+    for (auto const &pl : pls) {
+      total.count("evaluations");
+      std::string det = std::string("{\"case\":\"") + pl.name + " under rigid translation, 9 steps\"";
+      vproxy *px = new vproxy((int) base.size(), true);
+      for (size_t i = 0; i < base.size(); i++) px->x[i] = base[i];
+      std::string conf = "colvar {\n name c\n coordNum {\n" + pl.opts + " group1 { atomNumbers 1 2 3 }\n group2 { atomNumbers 4 5 6 7 }\n }\n}\n";
+      if (px->config(conf) != 0) { total.violation(std::string("C02:pair-list:configuration-refused:") + pl.name, det + ",\"error\":\"" + jesc(px->errtxt.substr(0, 200)) + "\"}"); delete px; continue; }
+      double v0 = 0;
+      for (int st = 0; st < 9; st++) {
+        for (size_t i = 0; i < base.size(); i++) px->x[i] = base[i] + (double) st * R(0.37, -0.21, 0.13);
+        if (px->step(st) != 0) { total.violation(std::string("C02:pair-list:error-at-the-step:") + pl.name, det + "}"); break; }
+        total.count("transitions");
+        double v = px->cv("c")->value().real_value;
+        if (st == 0) v0 = v;
+        else if (!std::isfinite(v) || std::fabs(v - v0) > 1e-10 * std::max(1.0, std::fabs(v0))) {
+          total.violation(std::string("C02:pair-list:value-changes-under-rigid-translation-between-rebuilds:") + pl.name,
+                          det + ",\"step\":" + std::to_string(st) + ",\"value\":" + num(v) + ",\"value_at_step_0\":" + num(v0) + "}");
+          break;
+        }
+      }
+      if (!(v0 > 0.05)) total.violation(std::string("C02:pair-list:vacuous-case:") + pl.name, det + ",\"value\":" + num(v0) + "}");
+      total.seen("nontrivial", fnv(det));
+      delete px;
+    }
+  }
   total.sample("{\"case\":\"coordNum/pair-exactly-at-the-cutoff\",\"expected\":0.5}");
   write_result(args.out, "C02", args.tier, total, true);
   return 0;
